@@ -211,6 +211,35 @@ def r3_lookup_order(ctx: Ctx) -> None:
                 g = [c for c in astq.calls(fi.node, "getattr") if c.args and ast.unparse(c.args[0]) == "obj"]
                 guarded = g and any("isinstance(argument, str)" in t_ and pol for t_, pol in astq.guard_texts(fi.node, g[0]))
                 ctx.check(bool(guarded), f"{cls}.{meth}:strguard", f"{cls}.{meth}", "attribute fallback guard", "getitem falls back to getattr for non-string arguments", fi.loc())
+    # failure classes of the two accesses: the subscript may fail with TypeError (not
+    # subscriptable), LookupError (missing key / index) or AttributeError (a __getitem__ that
+    # delegates to getattr) - all three mean "not there" and lead to the other access or to
+    # undefined; the attribute access only with AttributeError.  Siblings must agree.
+    from ..cfg import catches
+    from ..cfg import enclosing_try
+    from ..cfg import handler_types
+
+    for cls in ("environment:Environment", "sandbox:SandboxedEnvironment"):
+        for meth in ("getattr", "getitem"):
+            fi = repo.func(f"{cls}.{meth}")
+            subs = [n for n in ast.walk(fi.node) if isinstance(n, ast.Subscript) and ast.unparse(n.value) == "obj" and isinstance(n.ctx, ast.Load)]
+            for sub in subs:
+                covered = set()
+                for tr, part in enclosing_try(sub):
+                    if part == "body":
+                        for h in tr.handlers:
+                            for exc in ("TypeError", "LookupError", "KeyError", "IndexError", "AttributeError"):
+                                if catches(handler_types(h), exc):
+                                    covered.add(exc)
+                missing = sorted({"TypeError", "LookupError", "AttributeError"} - covered)
+                ctx.check(not missing, f"{cls}.{meth}:item-failures", f"{cls}.{meth}", f"obj[...] failure classes {missing} not handled",
+                          f"{meth}: `{ast.unparse(sub)}` is not protected against {missing}: such a failure (e.g. a __getitem__ that delegates to getattr and raises AttributeError) escapes to the template instead of yielding the fallback / an undefined value, and the plain and sandboxed accessors disagree",
+                          fi.loc(sub), detail={"handled": sorted(covered)})
+            gets = [c for c in astq.calls(fi.node, "getattr") if c.args and ast.unparse(c.args[0]) == "obj"]
+            for g in gets:
+                hs = [h for tr, part in enclosing_try(g) if part == "body" for h in tr.handlers]
+                ok = any(catches(handler_types(h), "AttributeError") for h in hs)
+                ctx.check(ok, f"{cls}.{meth}:attr-failure", f"{cls}.{meth}", "getattr(obj, ...) AttributeError not handled", f"{meth}: a missing attribute must lead to the item lookup / undefined", fi.loc(g))
     # the compiler routes . and [] to the matching accessor
     for vis, acc in (("visit_Getattr", "environment.getattr("), ("visit_Getitem", "environment.getitem(")):
         fi = repo.func(f"compiler:CodeGenerator.{vis}")
